@@ -148,7 +148,7 @@ def baseline(text, ops, hashseed):
 def worker_main():
     try:
         import resource
-        resource.setrlimit(resource.RLIMIT_AS, (2 * 1024 ** 3, 2 * 1024 ** 3))    # a runaway baseline must not take the machine down
+        resource.setrlimit(resource.RLIMIT_AS, (1024 ** 3, 1024 ** 3))    # a runaway baseline must not take the machine down
     except Exception:
         pass
     req = json.loads(sys.stdin.read())
@@ -171,7 +171,7 @@ def _replay_shard(case):
     """a shard that died of memory exhaustion is replayed as a whole, in a capped subprocess"""
     out = core.Outcome()
     code = ('import sys, resource\n'
-            'resource.setrlimit(resource.RLIMIT_AS, (3 * 1024 ** 3, 3 * 1024 ** 3))\n'
+            'resource.setrlimit(resource.RLIMIT_AS, (2 * 1024 ** 3, 2 * 1024 ** 3))\n'
             'from vpx.props import c18\n'
             'try:\n'
             '    acc = c18.run_shard(%r, %r, %r)\n'
@@ -180,7 +180,7 @@ def _replay_shard(case):
             'sys.exit(78 if any("memory-exhausted" in b for b in acc.buckets) else 0)\n') % (case['replay_shard'], case['seed'], case['tier'])
     p = subprocess.run([sys.executable, '-W', 'ignore', '-c', code], cwd=core.VERIF, capture_output=True, text=True)
     if p.returncode in (77, 78) or 'MemoryError' in p.stderr:
-        out.fail(MEMORY_BUCKET, 'shard %r (seed %r) ran out of its 3 GiB address space again' % (case['replay_shard'], case['seed']))
+        out.fail(MEMORY_BUCKET, 'shard %r (seed %r) ran out of its 2 GiB address space again' % (case['replay_shard'], case['seed']))
     out.nontrivial = True
     return out
 
@@ -217,7 +217,7 @@ def check_case(case):
             got = json.loads(json.dumps(got))
         except MemoryError:
             core.release_reserve()
-            out.fail('history-dependence:%s:memory-exhausted' % op['kind'], 'step %d (document #%d, %s) ran out of memory (3 GiB cap) in the history but not in a fresh interpreter' % (step, di, op_key(op)))
+            out.fail('history-dependence:%s:memory-exhausted' % op['kind'], 'step %d (document #%d, %s) ran out of memory (2 GiB cap) in the history but not in a fresh interpreter' % (step, di, op_key(op)))
             break
         exp = base[(di, op_key(op))]
         if got != exp:
